@@ -13,7 +13,7 @@ from vlib.run import Check, Violation, note_accept
 
 PROPERTY = "C16"
 RULE = (
-    "histories: a mono Wav of width 1/2/4 bytes, rate in {8,16,100,8000,16000,44100}, <=400 samples (incl. the extremes of the "
+    "histories: a mono Wav of width 1/2/4 bytes, rate in {8,16,100,8000,11025,16000,22050,44100,48000}, <=400 samples (incl. the extremes of the "
     "value range) followed by <=6 operations from {insert, deleteSegment, replaceSegment, concatenate, getSubwav, getFrames/"
     "getSamples, save->Wav.open, save->QueryWav queries} at times (k+f)/rate with f in {0,+-0.1,+-0.25,+-0.4,+-0.45} and at "
     "arbitrary times in [0,duration]. Oracle: a list-of-samples model whose index is the integer nearest to the exact rational "
@@ -252,6 +252,12 @@ def run_history(case):
             if from_bytes(old.frames, width) != samples0:
                 raise Violation("source-changed-through-subwav", f"{what}: a Wav that getSubwav was taken from changed when the sub-wav was edited")
     check_state("after the last step")
+    # whatever the history was: saving and opening gives the same samples back
+    fn = os.path.join(tmpdir(), "c16_final.wav")
+    wav.save(fn)
+    w3 = audio.Wav.open(fn)
+    if from_bytes(w3.frames, width) != model or w3.duration != len(model) / rate:
+        raise Violation("reopen-differs", f"final save -> Wav.open: {len(w3.frames) // width} samples (duration {w3.duration}) for {len(model)} at {rate} Hz")
     return {"classes": sorted(cl), "nontrivial": "offgrid_edit_wide" in cl}
 
 
@@ -271,7 +277,7 @@ def time_spec():
 @st.composite
 def histories(draw):
     width = draw(st.sampled_from([1, 2, 2, 4]))
-    rate = draw(st.sampled_from([8, 16, 100, 8000, 16000, 44100]))
+    rate = draw(st.sampled_from([8, 16, 100, 8000, 16000, 44100, 22050, 48000, 11025]))
     n = draw(st.one_of(st.integers(0, 24), st.integers(0, 24), st.integers(0, 60), st.integers(0, 400)))
     sv = sample_values(width)
     samples = draw(st.lists(sv, min_size=n, max_size=n))
